@@ -259,6 +259,11 @@ def Table.spawns (T : Table) : List (Nat × Nat) :=
   (T.calls.filter fun c => c.kind == .spawn).map fun c =>
     ((T.methods[c.caller]?.map (·.name)).getD 0, (T.methods[c.callee]?.map (·.name)).getD 0)
 
+/-- ids used by the rows and edges exist -/
+def Table.wfB (T : Table) : Bool :=
+  (T.accesses.all fun a => decide (a.field < T.fields.length) && decide (a.meth < T.methods.length)) &&
+  (T.calls.all fun c => decide (c.caller < T.methods.length) && decide (c.callee < T.methods.length))
+
 /-- The six skip flags: plain members written by `skip(…)` on the controller thread and read inside
     every step on the filtering thread — the known, unfixed defect of C10 (DESIGN.md §8/C10). -/
 def skipFlags : List (Nat × Nat) :=
